@@ -17,8 +17,9 @@ PLAN = {
         expect=[("MC_F2.cfg", "C02_EndIsLast_Strict")],
         sim=[("MC_Faults.cfg", [1, 2, 3], 3, {"NDest": 3, "MaxActs": 4, "MaxMsgs": 9, "MaxFaults": 4, "MaxDepth": 3, "MaxBlocks": 3,
                                               "InitDests": "D123", "Feat": '{"finish", "ctx", "run", "dfault", "task", "alog"}'})],
-        profiles=[dict(feat={"task", "finish", "ctx", "run", "alog", "tb", "remote", "spawn", "ext"}, nctx=3, ndest=3, init=[1, 2, 3],
-                       dfault=0.2, maxlen=40)]),
+        profiles=[dict(feat={"task", "finish", "ctx", "run", "alog", "tb", "remote", "spawn", "ext", "preserve"}, nctx=3, ndest=3, init=[1, 2, 3],
+                       dfault=0.2, maxlen=40)],
+        extra="c02_raced_ids", keep_sizes=True),
     "C03": dict(
         mc=[("MC_Core.cfg", {"MaxMsgs": 6}), ("MC_Succ.cfg", {"MaxMsgs": 5})],
         sim=[("MC_Succ.cfg", [1], 1, {"MaxActs": 4, "MaxMsgs": 10, "MaxDepth": 3, "MaxBlocks": 4,
@@ -108,7 +109,7 @@ def run(prop, tier):
                        "calls of different contexts interleave at logging-call boundaries",
                        "programs never allocate in a finished action (documented misuse) and continue each task id at most once"]
     size = dict(SIZES[tier])
-    if tier == "quick" and plan.get("extra"):
+    if tier == "quick" and plan.get("extra") and not plan.get("keep_sizes"):
         size = dict(sim=80, rand=260)          # these properties also run a concurrency half
     try:
         # 1. TLC decides the invariants on the specification
